@@ -8,8 +8,11 @@
    through pdu_header), plain assignments to the public attributes, operations of the CALLER on the
    objects it handed in (its PduConfig, its FinishedParams / MetadataParams, its option /
    response / segment-request list mutated in place and assigned again), and observations
-   (pack, lengths) in between.  Every operation yields one log entry: [0] accepted,
-   [1; class] refused (the state is then unchanged), or the observed value.  The final
+   (pack, lengths, all exposed values) in between.  Every operation yields one log entry:
+   [0] accepted, [1; class] refused, or the observed value.  A refused operation leaves the state
+   unchanged: the setters validate before they assign or (the recalculating setters of
+   FinishedPdu, MetadataPdu and NakPdu, since the repairs a59b63b / 910380a / 6222224 in /repo)
+   restore the previous value when the length calculation refuses the new one.  The final
    observation: all fields, the lengths, pack twice, the caller's PduConfig, the caller's list.
 
    Reference semantics are modelled where the code has them: the PDU stores the caller's list
